@@ -20,7 +20,7 @@
 (*   an event     = Plus(v, Mono(c, b, 0, 1))   (insert age 0)              *)
 (* The harness (harness/symeval.py) evaluates terms in float64 for concrete *)
 (* parameter sets; EvalDy below evaluates them exactly in scaled integers   *)
-(* for the dyadic recipe (every base^D = 1/2, constants multiples of 2^-CK).*)
+(* for the dyadic recipe (base^D a power of 1/2, constants multiples of 2^-CK)*)
 (***************************************************************************)
 EXTENDS Integers, FiniteSets, Sequences
 
@@ -70,21 +70,24 @@ Normal(v) == /\ \A t \in v : IsTerm(t)
 RECURSIVE Pow2(_)
 Pow2(n) == IF n <= 0 THEN 1 ELSE 2 * Pow2(n - 1)
 
-\* one term, scaled by 2^K:  m * CS[c] * 2^(K - CK - e/D)
-TermDy(t, CS, CK, K, D) ==
-  LET age == IF t.b = "1" THEN 0 ELSE t.e IN
-  IF age % D # 0 \/ age < 0 \/ K - CK - (age \div D) < 0 THEN [ok |-> FALSE, v |-> 0]
-  ELSE [ok |-> TRUE, v |-> t.m * CS[t.c] * Pow2(K - CK - (age \div D))]
+\* one term, scaled by 2^K:  m * CS[c] * 2^(K - CK - h * e/D), h = HB[b] halvings per step of base b
+TermDyH(t, CS, CK, K, D, HB) ==
+  LET age == IF t.b = "1" THEN 0 ELSE t.e
+      h == IF t.b = "1" THEN 0 ELSE HB[t.b]
+  IN IF age % D # 0 \/ age < 0 \/ K - CK - h * (age \div D) < 0 THEN [ok |-> FALSE, v |-> 0]
+     ELSE [ok |-> TRUE, v |-> t.m * CS[t.c] * Pow2(K - CK - h * (age \div D))]
 
-RECURSIVE SumDy(_, _, _, _, _)
-SumDy(v, CS, CK, K, D) ==
+RECURSIVE SumDyH(_, _, _, _, _, _)
+SumDyH(v, CS, CK, K, D, HB) ==
   IF v = {} THEN [ok |-> TRUE, v |-> 0]
   ELSE LET t == CHOOSE x \in v : TRUE
-           h == TermDy(t, CS, CK, K, D)
-           r == SumDy(v \ {t}, CS, CK, K, D)
+           h == TermDyH(t, CS, CK, K, D, HB)
+           r == SumDyH(v \ {t}, CS, CK, K, D, HB)
        IN [ok |-> h.ok /\ r.ok, v |-> h.v + r.v]
 
 \* "bad" is returned for values that the dyadic recipe cannot represent
-EvalDy(v, CS, CK, K, D) ==
-  LET r == SumDy(v, CS, CK, K, D) IN IF r.ok THEN [k |-> "i", i |-> r.v] ELSE [k |-> "bad"]
+EvalDyH(v, CS, CK, K, D, HB) ==
+  LET r == SumDyH(v, CS, CK, K, D, HB) IN IF r.ok THEN [k |-> "i", i |-> r.v] ELSE [k |-> "bad"]
+\* every base halves once per step
+EvalDy(v, CS, CK, K, D) == EvalDyH(v, CS, CK, K, D, [q |-> 1, r |-> 1, qd |-> 1, qr |-> 1])
 =============================================================================
